@@ -1,0 +1,32 @@
+//go:build verif
+
+// Contracts for the gocv verifier (comment-only file; see /verif/DESIGN.md §4).
+package doh
+
+
+// The HTTP round trip (net/http, RFC 8484 framing of the reply) is outside the contracts: whatever
+// the server sends, a reply holds at least a DNS header.
+//@ func (u *Upstream) exchange
+//@   nobody
+//@   log dohRoundTrip
+//@   modifies *
+//@   ensures (result_0 != nil) != (result_1 != nil)
+//@   ensures result_0 != nil ==> len(*result_0) >= 12
+
+//@ chanmsg res (v) noclose: ((v.r != nil) != (v.err != nil)) && (v.r != nil ==> len(*v.r) >= 12)
+
+// ExchangeContext (C01): the query is copied, the id is zeroed on the copy only (RFC 8484 4.1),
+// the base64url text of exactly that copy is sent, and the caller's id is restored in the reply.
+//@ func (u *Upstream) ExchangeContext [C01, C07]
+//@   requires u != nil && ctx != nil && len(q) >= 12
+//@   modifies *
+//@   ensures[C07] (result_0 != nil) != (result_1 != nil)
+//@   ensures calls(b64Encode) == 1 && atcall(b64Encode, 0, len(arg(b64Encode, 0, 2)) == len(q) && arg(b64Encode, 0, 2)[0] == 0 && arg(b64Encode, 0, 2)[1] == 0 && (forall i int :: 2 <= i && i < len(q) ==> arg(b64Encode, 0, 2)[i] == q[i]))
+//@   ensures result_0 != nil ==> len(*result_0) >= 12
+//@   ensures result_0 != nil ==> atcall(Uint16, 0, be16(q) == old(be16(q))) && atcall(PutUint16, 0, arg(PutUint16, 0, 2) == be16(q)) && arg(PutUint16, 0, 1) == *result_0
+//@   ensures result_0 != nil ==> calls(chanRecv) == 1 && result_0 == ret(chanRecv, 0, 0).r
+//@   ensures calls(GetBuf) == 1 && calls(ReleaseBuf) == 1 && arg(ReleaseBuf, 0, 0) == ret(GetBuf, 0)
+//@ func (u *Upstream) ExchangeContext$1 [C01]
+//@   requires u != nil && resChan != nil
+//@   modifies *
+//@   ensures calls(dohRoundTrip) == 1 && calls(chanSend) == 1 && arg(chanSend, 0, 0) == resChan
